@@ -25,7 +25,7 @@ func init() {
 		Controls: []Control{
 			{Name: "register-leaks-lock-at-end-of-life", File: "routingtable/client_manager.go", Old: "\tif c.endOfLife {\n\t\tc.mu.Unlock()\n\t\treturn\n\t}\n\n\tc.clients[client] = opt", New: "\tif c.endOfLife {\n\t\treturn\n\t}\n\n\tc.clients[client] = opt", Expect: "lock-released-on-every-exit"},
 			{Name: "refresh-callback-locks-again", File: "routingtable/adjRIBOut/adj_rib_out.go", Old: "func (a *AdjRIBOut) removePathsForPrefix(pfx *bnet.Prefix) bool {\n\tr := a.rt.Get(pfx)\n", New: "func (a *AdjRIBOut) removePathsForPrefix(pfx *bnet.Prefix) bool {\n\ta.mu.Lock()\n\tr := a.rt.Get(pfx)\n\ta.mu.Unlock()\n", Expect: "no-reentry-through-callback"},
-			{Name: "stop-sends-under-list-lock", File: "protocols/bgp/server/peer.go", Old: "\tp.fsmsMu.Unlock()\n\n\tfor _, fsm := range fsms {\n\t\tfsm.eventCh <- ManualStop\n\t}\n", New: "\tfor _, fsm := range fsms {\n\t\tfsm.eventCh <- ManualStop\n\t}\n\tp.fsmsMu.Unlock()\n", Expect: "no-blocking-send-under-needed-lock"},
+			{Name: "stop-sends-under-list-lock", File: "protocols/bgp/server/peer.go", Old: "\tp.fsmsMu.Unlock()\n\n\tfor _, fsm := range fsms {\n\t\tfsm.sendEvent(ManualStop)\n\t}\n", New: "\tfor _, fsm := range fsms {\n\t\tfsm.sendEvent(ManualStop)\n\t}\n\tp.fsmsMu.Unlock()\n", Expect: "no-blocking-send-under-needed-lock"},
 			{Name: "sender-reacquires-queue-lock-before-releasing-write-lock", File: "protocols/bgp/server/update_sender.go", Old: "\t\t\tu.sendMu.Unlock()\n\t\t\tu.toSendMu.Lock()\n", New: "\t\t\tu.toSendMu.Lock()\n\t\t\tu.sendMu.Unlock()\n", Expect: "lock-order-acyclic"},
 			{Name: "locrib-recursive-read-lock", File: "routingtable/locRIB/loc_rib.go", Old: "\troutes := a.rt.Dump()\n\tfor idx, r := range routes {", New: "\troutes := a.Dump()\n\tfor idx, r := range routes {", Expect: "no-reacquire-on-same-instance"},
 		},
@@ -260,28 +260,48 @@ func blockingSends(c *core.Ctx, lp *core.LockProg) {
 			}
 		}
 	}
+	// heldGuard[g][class]: the state predicate under which EVERY chain that holds class reaches g ("" = some chain is unguarded)
+	heldGuard := map[*core.Fn]map[string]string{}
 	for changed, iter := true, 0; changed && iter < 20; iter++ {
 		changed = false
 		for _, g := range lp.Fns {
 			for _, cl := range callers[g] {
-				add := func(class string, chain []string) {
+				add := func(class string, chain []string, guard string) {
 					if heldIn[g] == nil {
 						heldIn[g] = map[string][]string{}
+						heldGuard[g] = map[string]string{}
 					}
-					if _, ok := heldIn[g][class]; !ok && len(chain) < 6 {
-						heldIn[g][class] = chain
+					if _, ok := heldIn[g][class]; !ok {
+						if len(chain) < 6 {
+							heldIn[g][class] = chain
+							heldGuard[g][class] = guard
+							changed = true
+						}
+						return
+					}
+					if heldGuard[g][class] != guard && heldGuard[g][class] != "" {
+						heldGuard[g][class] = ""
+						// keep the unguarded chain as the witness
+						if guard == "" && len(chain) < 6 {
+							heldIn[g][class] = chain
+						}
 						changed = true
 					}
 				}
+				here := statePredicateAt(cl.f, cl.call)
 				if ls := lp.Sets[cl.f]; ls != nil {
 					for h := range ls.MayAt(cl.call) {
 						if hc := lp.KeyClass[cl.f][h]; hc != nil {
-							add(core.ClassKey2(hc), []string{cl.f.Name()})
+							add(core.ClassKey2(hc), []string{cl.f.Name()}, here)
 						}
 					}
 				}
 				for class, chain := range heldIn[cl.f] {
-					add(class, append(append([]string{}, chain...), cl.f.Name()))
+					gd := heldGuard[cl.f][class]
+					if gd == "" {
+						gd = here
+					}
+					add(class, append(append([]string{}, chain...), cl.f.Name()), gd)
 				}
 			}
 		}
@@ -342,10 +362,22 @@ func blockingSends(c *core.Ctx, lp *core.LockProg) {
 	}
 	n := 0
 	for _, f := range lp.Fns {
-		// sends that are one alternative of a select are not blocking sends
+		// a send that is one alternative of a select does not block when the select can always proceed: it has a default
+		// clause or a timer alternative.  Next to other channel operations (e.g. "the receiver has ended") it still blocks
+		// for as long as the receiver lives and does not receive.
 		alt := map[ast.Node]bool{}
 		ast.Inspect(f.Decl.Body, func(nd ast.Node) bool {
 			if sel, ok := nd.(*ast.SelectStmt); ok && len(sel.Body.List) > 1 {
+				escapes := false
+				for _, cl := range sel.Body.List {
+					cc := cl.(*ast.CommClause)
+					if cc.Comm == nil || isTimerRecv(f, cc.Comm) {
+						escapes = true
+					}
+				}
+				if !escapes {
+					return true
+				}
 				for _, cl := range sel.Body.List {
 					if cc := cl.(*ast.CommClause); cc.Comm != nil {
 						alt[cc.Comm] = true
@@ -364,10 +396,12 @@ func blockingSends(c *core.Ctx, lp *core.LockProg) {
 				return true
 			}
 			held := map[string][]string{}
+			directHeld := map[string]bool{}
 			if ls := lp.Sets[f]; ls != nil {
 				for h := range ls.MayAt(ss) {
 					if hc := lp.KeyClass[f][h]; hc != nil {
 						held[core.ClassKey2(hc)] = []string{f.Name()}
+						directHeld[core.ClassKey2(hc)] = true
 					}
 				}
 			}
@@ -382,21 +416,6 @@ func blockingSends(c *core.Ctx, lp *core.LockProg) {
 			// what the receiving goroutine may lock.  When the send is reached only through a call that is control-dependent
 			// on a state predicate of the target (isXState(target.state) read in the same critical section), the target's
 			// goroutine is executing X's event loop: only code reachable from X's methods counts.
-			recv := recvFns[ch]
-			stateNote := ""
-			if st := statePredicateAtCallers(lp, f); st != "" {
-				var only []*core.Fn
-				for _, r := range recv {
-					if core.RecvName(r.Obj) == st {
-						only = append(only, r)
-					}
-				}
-				if len(only) > 0 {
-					recv = only
-					stateNote = " (target known to be in " + st + ": only its event loop is considered)"
-				}
-			}
-			reach := p.ReachableFns(recv...)
 			var classes []string
 			for k := range held {
 				classes = append(classes, k)
@@ -405,6 +424,32 @@ func blockingSends(c *core.Ctx, lp *core.LockProg) {
 			for _, class := range classes {
 				n++
 				construct := fmt.Sprintf("send on %s in %s with %s held (%s)", ch.Name(), f.Name(), short(class), strings.Join(shortAll(held[class]), " → "))
+				// what the receiving goroutine may lock.  When every chain that holds the lock reaches the send through a call
+				// that is control-dependent on a state predicate of the target (isXState(target.state) read in the same
+				// critical section), the target's goroutine is executing X's event loop: only code reachable from X's
+				// methods counts.
+				recv := recvFns[ch]
+				stateNote := ""
+				st := ""
+				if _, direct := directHeld[class]; !direct {
+					st = heldGuard[f][class]
+				}
+				if st == "" {
+					st = statePredicateAtCallers(lp, f)
+				}
+				if st != "" {
+					var only []*core.Fn
+					for _, r := range recv {
+						if core.RecvName(r.Obj) == st {
+							only = append(only, r)
+						}
+					}
+					if len(only) > 0 {
+						recv = only
+						stateNote = " (target known to be in " + st + ": only its event loop is considered)"
+					}
+				}
+				reach := p.ReachableFns(recv...)
 				var needs *core.Fn
 				for _, g := range reach {
 					if lp.Direct[g][class] {
@@ -425,6 +470,35 @@ func blockingSends(c *core.Ctx, lp *core.LockProg) {
 	if n == 0 {
 		c.Hold("no-blocking-send-under-needed-lock", "unbuffered sends under a lock", token.NoPos, "no unbuffered channel send happens with a lock held")
 	}
+}
+
+// statePredicateAt: the call is control-dependent on isXState(…) being true → "xState", else "".
+func statePredicateAt(g *core.Fn, call *ast.CallExpr) string {
+	st := ""
+	for _, ft := range core.CtlFactsAt(g, call) {
+		if ft.Expr == nil || !ft.Truth {
+			continue
+		}
+		name := ""
+		check := func(e ast.Expr) {
+			if c2, ok := core.Unparen(e).(*ast.CallExpr); ok {
+				if cal := core.Callee(g.Pkg, c2); cal != nil && strings.HasPrefix(cal.Name(), "is") && strings.HasSuffix(cal.Name(), "State") {
+					n := strings.TrimPrefix(cal.Name(), "is")
+					name = strings.ToLower(n[:1]) + n[1:]
+				}
+			}
+		}
+		check(ft.Expr)
+		if o := core.ObjOf(g.Pkg, ft.Expr); o != nil {
+			for _, d := range core.DefsOf(g, o) {
+				check(d)
+			}
+		}
+		if name != "" {
+			st = name
+		}
+	}
+	return st
 }
 
 // statePredicateAtCallers: if every lock-holding call site of f (the function that sends) is control-dependent on
